@@ -74,6 +74,8 @@ for kind, rel in sorted(plan):
     if kind in ("new", "copy"):
         os.makedirs(os.path.dirname(dst), exist_ok=True)
         shutil.copy2(src, dst)
+    elif kind == "merge" and rel == "known_findings.json":
+        print(sh(f"/verif/tools/merge_findings.py {src}").stdout)
     elif kind == "merge" and rel == "harness/translate.py":
         print(sh(f"/verif/tools/merge_translate.py {src}").stdout)
     elif kind == "merge":
